@@ -23,9 +23,22 @@ func (r *Begin) Evaluation(
 	t *base.T,
 ) (err error) {
 
-	err = e.EvalToTargetToken(p, ctx, "end")
-	if err != nil {
-		return err
+	for {
+		nextT, err := p.Read()
+		if err != nil {
+			return err
+		}
+
+		if nextT == nil || nextT.IsEndIdentifier() {
+			break
+		}
+
+		// a diagnostic inside the begin body must not end it early: the
+		// rescue/ensure parts and the `end` would be read by the enclosing body
+		err = e.Eval(p, ctx, nextT)
+		if err != nil {
+			p.Fatal(ctx, err)
+		}
 	}
 
 	return nil
